@@ -131,9 +131,36 @@ def trace_events(tier):
     import numpy as np
     rnd = random.Random(seed())
     events, meta = [], {}
+    # observe the optimiser the library calls (harness-side wrapper around the module's `minimize`; /repo is not touched):
+    # did SLSQP report success, and does its answer satisfy the one-sided constraint it was given?
+    import OpenPinch.utils.stream_linearisation as SL
+    calls = []
+    real_min = SL.minimize
+
+    def spy(*a, **k):
+        res = real_min(*a, **k)
+        con = k.get("constraints")
+        ok = True
+        try:
+            v = float(con.fun(res.x))
+            ok = (con.lb - 1e-7 <= v <= con.ub + 1e-7)
+        except Exception:
+            pass
+        calls.append(bool(res.success) and ok)
+        return res
+    SL.minimize = spy
+    try:
+        _collect(tier, rnd, events, meta, calls, get_piecewise_data_points, np)
+    finally:
+        SL.minimize = real_min
+    return events, meta
+
+
+def _collect(tier, rnd, events, meta, calls, get_piecewise_data_points, np):
     for name, pts, eps in profiles(tier, rnd):
         for hot in (True, False):
             eid = f"{name}|{'hot' if hot else 'cold'}"
+            del calls[:]
             try:
                 res = np.asarray(get_piecewise_data_points(curve=[list(p) for p in pts], is_hot_stream=hot, dt_diff_max=eps), float)
             except Exception as e:
@@ -161,8 +188,7 @@ def trace_events(tier):
                 fl.append("C17.linearisation_one_sided")
             meta[eid] = dict(float_fails=fl, excess=excess)
             events.append(dict(id=eid, hot=hot, onesided=True, refined=bool(len(res) > 10), endsKept=ends, ordered=ordered, pts=ev,
-                               epsu=int(round(epsu)), npts=len(res)))
-    return events, meta
+                               epsu=int(round(epsu)), npts=len(res), slsqp_ok=bool(calls[-1]) if calls else True))
 
 
 def kf_unrefined(v, f):
@@ -170,9 +196,10 @@ def kf_unrefined(v, f):
 
 
 def kf_slsqp(v, f):
-    """refined profile whose one-sided excursion is between eps/10 and eps/5: the optimiser's result is accepted unchecked"""
-    ex = v.case.get("excess")
-    return v.clause == "C17.linearisation_one_sided" and v.case.get("refined") and ex is not None and ex <= 0.2
+    """refined profile for which SLSQP did not report success, or whose answer violates the constraint it was given:
+    the optimiser's result is used unchecked (observed by a harness-side wrapper around the module's `minimize`)"""
+    return (v.clause in ("C17.linearisation_one_sided", "C17.linearisation_within_max_deviation")
+            and v.case.get("refined") and v.case.get("slsqp_ok") is False)
 
 
 def check(prop, tier, run: Run, replay_case=None):
@@ -249,14 +276,14 @@ def check(prop, tier, run: Run, replay_case=None):
         if tag == "VERDICT":
             e = byid[obj["id"]]
             for c in obj["fails"]:
-                run.violation(c, dict(id=e["id"], refined=e["refined"], npts=e["npts"], hot=e["hot"], excess=meta.get(e["id"], {}).get("excess")),
+                run.violation(c, dict(id=e["id"], refined=e["refined"], npts=e["npts"], hot=e["hot"], excess=meta.get(e["id"], {}).get("excess"), slsqp_ok=e["slsqp_ok"]),
                               dict(leg="T", judge="TLC"), leg="T")
     for eid, m in meta.items():
         if "raises" in m:
             run.violation("C17.linearisation_raises", dict(id=eid), m, leg="T")
         for c in m.get("float_fails", []):
             e = byid[eid]
-            run.violation(c, dict(id=e["id"], refined=e["refined"], npts=e["npts"], hot=e["hot"], excess=m.get("excess")), dict(leg="T", judge="float"), leg="T")
+            run.violation(c, dict(id=e["id"], refined=e["refined"], npts=e["npts"], hot=e["hot"], excess=m.get("excess"), slsqp_ok=e["slsqp_ok"]), dict(leg="T", judge="float"), leg="T")
     run.cov["evaluations"] += sum(len(e["pts"]) for e in events)
     run.cov["traces_validated_against_impl"] += len(events)
     run.notes["trace_profiles"] = dict(events=len(events), refined=sum(1 for e in events if e["refined"]), epsu_min=min(e["epsu"] for e in events))
